@@ -53,8 +53,26 @@ ASSUMPTIONS = [
     "settings.STRICT is False (the default)",
 ]
 STATEMENT_STATUS = {
-    "alpha_statement": "open finding alpha-repeat: proved false on the pinned code (alpha_cex), alpha_partial proved "
-                       "for values <= 26",
+    "pdfdoc_table_total": "proved (regenerated table has 256 entries)",
+    "pdfdoc_table_spec": "proved: every defined code of ISO 32000-1 Table D.2 (kernel sweep over 256 bytes)",
+    "decode_text_spec": "proved for all strings in the domain (well-formed UTF-16BE with BOM, defined PDFDocEncoding codes)",
+    "roman_correct": "proved for all 0 < n < 4000 (kernel sweep against the regenerated ROMAN_* tables)",
+    "roman_value": "proved (sanity of the specification: numeral reads back as n)",
+    "roman_outside": "proved (AssertionError outside 0 < n < 4000 is modelled)",
+    "alpha_statement": "full statement for styles A/a; proved FALSE on the pinned code: alpha_cex (28 -> 'ab', ISO 'bb'); "
+                       "open finding alpha-repeat",
+    "alpha_partial": "partial: values 1..26 only",
+    "alpha_fuel_suffices": "proved (the loop bound of the letters model is never hit)",
+    "numtree_flatten": "proved for every tree shape (mutual induction)",
+    "numtree_values": "proved: values = in-order flattening when keys ascend",
+    "C17_label_range": "proved for all conforming trees / pages: right range, prefix, style, value St + (i - start), St default 1",
+    "numeral_partial": "partial: letters styles only for values <= 26",
+    "C17_label_statement": "full statement; proved FALSE on the pinned code (C17_label_cex) because of the letters numeral",
+    "C17_label_partial": "partial: letter-style values <= 26 (everything else of the full statement)",
+    "C17_outline_forest": "proved for every forest and level (mutual induction over the forest)",
+    "C17_outline": "proved: get_outlines on the Outlines dictionary of any forest = preorder with levels from 1",
+    "C17_nametree": "proved for every conforming name tree and every key (found value / KeyError)",
+    "C17_dest": "proved: get_dest = specification for strings (name tree) and names (Dests dictionary)",
 }
 
 
